@@ -223,6 +223,37 @@ prop("C15", "TestC15", "exploration",
      q, t, need_bin=True, required_labels=["kind:toma-window", "kind:topa-window", "kind:wrap", "kind:variants-window", "kind:legacy-flags", "kind:stdin",
                                            "all-windows-enumerated", "start-alone", "end-alone", "both-bounds", "pad"])
 
+UD_GEN = ("reference A/C/G/T of width 6..30; a pool of 2..6 (position, allele) SNPs; 1..3 queries and 1..20 targets built from the pool, from a query "
+          "(identical / child) or from an earlier target (copies), with ambiguity symbols over SNP positions and N tracts, so that shared SNPs, multiple "
+          "hits, ties on distance and ambiguity count and every bin occur; options: --size-total | --size-up/-down/-side/-same in 0..3 | none; --dist-all | "
+          "--dist-up/-down/-side | none; --no-fill; --dist-push 1..3 (alone); --threshold-pair in {0,.1,.25,.5,1}; --threshold-target; --ignore; --table")
+
+q, t = tiers(4, 1500, 16, 15000, floor_q=300, floor_t=3000, q_timeout=300)
+prop("C08", "TestC08", "exploration",
+     "Oracle computed from the raw sequences: per (query,target) the bin from which sequence carries A/C/G/T differences from the reference the other lacks, "
+     "distance = columns where both are A/C/G/T and differ, float32 pairwise ambiguity ratio, target ambiguity filter, ignore list; candidates per bin "
+     "sorted by (distance, ambiguity count, file order) and cut by the bin's distance limit. The output (list and --table forms, distances included) is "
+     "validated: every bin is a prefix of its candidates in that order; total <= limit; --no-fill => min(requested, available); otherwise total = "
+     "min(limit, supply), every bin >= min(requested, available) and extras are even (no bin with spare is two behind another); --dist-push k => exactly "
+     "the targets at the k smallest occurring distances, nearest first, and `same` = every identical target. Bounded-exhaustive arm: all supplies x "
+     "requested sizes in 0..3 per bin x --no-fill (130k allocation points; all in thorough, 1/8 sample in quick) realised with synthetic targets.",
+     "Where the specification admits several outputs (fill order, remainder of --size-total) the oracle is a validity predicate; -1 'easter egg' sizes are not generated.",
+     "property-based testing (rapid) + bounded-exhaustive enumeration against a sequence-level reference model / validity predicate",
+     UD_GEN + "; non-trivial = a bin is short while another has spare (fill happens), or a threshold binds, or a multiple hit changes a distance, or dist-push cuts; distinct = hash of the case",
+     q, t, required_labels=["fill-happens", "no-fill", "size-total", "size-per-bin", "dist-limits", "dist-limit-cuts", "dist-push", "dist-push-cuts",
+                            "pair-threshold-binds", "target-threshold-binds", "multiple-hit", "ignore", "table"],
+     exhaustive_note="allocation arithmetic: supplies 0..3^4 x requested 0..3^4 x no-fill (thorough: all points; quick: 1/8 sample rotated by seed)")
+
+q, t = tiers(4, 1000, 16, 10000, floor_q=300, floor_t=3000, q_timeout=300)
+prop("C09", "TestC09", "exploration",
+     "Differential: the CSVs are produced by gofasta's own `updown list` from the generated alignments; topranking is run under the four "
+     "(query,target) in {fasta,csv}^2 combinations with the same options and the four outputs must be byte-identical; the csv/csv output is also parsed "
+     "and must have exactly one row per query in query-file order (list form) / contiguous ordered blocks (table form).",
+     "Same generator and option space as C08, with >= 2 queries in ~80% of cases.",
+     "property-based testing (rapid): differential between input formats",
+     UD_GEN + "; non-trivial = >= 2 queries and some non-empty bin; distinct = hash of the case",
+     q, t, required_labels=["queries>=2", "table", "dist-push"])
+
 NOT_CLAIMED = {}
 
 
